@@ -98,6 +98,13 @@ def gen_crs(tape):
          "crs": merc}
     if tape.chance(1, 4):
         a, b = b, a        # (a large source, target locations brought into web-mercator coordinates)
+    if tape.chance(1, 3):
+        # the same geographic system written with the other axis order: EPSG:4326 counts latitude first, OGC:CRS84
+        # longitude first - the target's (lon, lat) have to be swapped before anything is compared
+        la0, lo0 = 49.0 + tape.choice([0.0, 0.125, 2.5]), 8.0 + tape.choice([0.0, 0.375, -3.0])
+        a.update(spacing=[0.25, 0.25], origin=[la0, lo0], crs="EPSG:4326", dims=[tape.rng_int(6, 14), tape.rng_int(6, 14)])
+        b.update(spacing=[round(0.25 * (a["dims"][1] - 1) / (b["dims"][0] - 1), 6), round(0.25 * (a["dims"][0] - 1) / (b["dims"][1] - 1), 6)],
+                 origin=[lo0, la0], crs="OGC:CRS84")
     return {"engine": "R", "method": "nearest", "src": a, "dst": b, "rel": "other", "smask": tape.weighted([("none", 3), ("partial", 1)]),
             "ctor_mask": False, "dmask": tape.weighted([("FLEX", 3), ("partial", 1)]), "mbits": [tape.draw(4) == 0 for _ in range(160)],
             "npub": 2, "coef": [[tape.choice([0.0, 1.0, 7.0])] + [tape.choice([1.0, -2.0, 0.5, 10.0]) for _ in range(3)]
